@@ -45,11 +45,31 @@ DESC = {
  'C19-I': 'the warmup sleep ends early when the last worker has already exited',
  'C19-J': '`debuglog` (DEBUG mode) returns the generator of a coroutine without running it to the end',
  'C20-I': 'the rollover test counts the time prefix',
+ 'C01-K': '`synchronized`: on failure the slot is reset on `self` instead of the arbiter (a `set` that raises in `Watcher.set_opt` keeps the arbiter locked for ever)',
+ 'C02-K': 'the per-fork `is_stopped()` guard of `spawn_process` becomes one check at the top of `spawn_processes`',
+ 'C03-K': '`Process.children()` answers from the children remembered at the stop signal while the process is being stopped',
+ 'C04-K': '`kill_process` no longer removes the redirections before closing the pipes (stale loop handlers; a later spawn on the same descriptor number fails and its child is lost)',
+ 'C05-K': '`XPUB_NODROP` on the event socket: a subscriber that stops reading blocks the daemon inside libzmq',
+ 'C06-K': '`json_msg.get(\'msg_type\', \'\').lower()` before the `try` of `dispatch`',
+ 'C07-K': 'socket descriptors are only mapped when `\'circus.sockets.\' in self.args` (element test for a list of args, case-sensitive)',
+ 'C08-K': '`Arbiter.stop()` gives the signal handlers back at the start of the shutdown',
+ 'C09-K': 'the `send_hup` reload goes through `send_signal_process` (a `kill` event per surviving worker)',
+ 'C10-K': '`_stop` of a watcher that is already "stopping" waits for the other stop to end',
+ 'C11-K': '`add` applies the `hooks` option with `set_opt` after the watcher was registered',
+ 'C12-K': 'the `DictDiffer` of `reload_from_config` replaced by a pass over the new keys (removed options go unnoticed)',
+ 'C13-K': '`format_args` splits a string `args` before substituting',
+ 'C14-K': 'the start-abort test reordered: with `numprocesses = 0` `after_start` is not consulted',
+ 'C15-K': '`Watcher.__init__` strips the name (`add " web"` next to `web`)',
+ 'C16-K': '`if not val: continue` for watcher options (an empty value keeps the default)',
+ 'C17-K': '`_reload_stream` rebuilds the redirector instead of swapping the stream',
+ 'C18-K': 'a `shell = True` worker is signalled with `os.killpg`',
+ 'C19-K': '`if watcher.autostart or self._running` in `_start_watchers`',
+ 'C20-K': 'the line prefix is cached per formatted time (not per pid)',
  'C20-J': 'rollover closes the file unconditionally and no longer reopens a file that is not open (failure between close and reopen is fatal)',
 }
 letters = sys.argv[1:] or ['I', 'J']
 names = sorted(n for n in os.listdir(os.path.join(HERE, 'seeded')) if n[-1] in letters and n[-2] == '-')
-FIRST = set('C01-I C02-I C04-I C04-J C06-J C07-J C13-I C15-J C16-I C16-J C17-I C18-I C18-J C19-I'.split())
+FIRST = set('C04-K C06-K C07-K C12-K C13-K C15-K C16-K C17-K C01-I C02-I C04-I C04-J C06-J C07-J C13-I C15-J C16-I C16-J C17-I C18-I C18-J C19-I'.split())
 print('| seed | change | first | now caught by |\n|---|---|---|---|')
 for n in names:
     m = json.load(open(os.path.join(HERE, 'seeded', n, 'meta.json')))
